@@ -183,6 +183,8 @@ StepDiff(r, ev, res) ==
     ELSE IF ~SameBag(res.out, ObsOut(ev.out)) THEN "emitted messages differ from the specification"
     ELSE IF res.store # ev.store THEN "block store differs from the specification"
     ELSE IF res.watch # ev.watch THEN "proposer notification differs from the specification"
+    ELSE IF res.persist /\ Len(ev.durs) < 2 THEN "the step did not write its state durably although the specification does"
+    ELSE IF res.persist /\ ObsDur(ev.durs[Len(ev.durs)]) # Dur(ObsRS(ev.post)) THEN "the durable state written by the step is not the state the step ends in"
     ELSE "none"
 
 TStep ==
